@@ -148,7 +148,65 @@ def rename_region(src, names):
     return "".join(res)
 
 
+ARM = re.compile(r"^(\s+)((?:[A-Za-z_][\w]*::)+[A-Za-z_]\w*(?:\([^()|]*\))?(?:\s*\|\s*(?:[A-Za-z_][\w]*::)+[A-Za-z_]\w*(?:\([^()|]*\))?)*)\s*=>\s*([^{}]*),\s*$")
+STRARM = re.compile(r'^(\s+)("[^"]*"(?:\s*\|\s*"[^"]*")*)\s*=>\s*([^{}]*),\s*$')
+LET = re.compile(r"^(\s+)let ([a-z_]\w*)(: [^=;]+)? = ([^;{}]+);\s*$")
+
+
+def mutate_swaparms(repo, f):
+    """swap adjacent single-line match arms whose patterns are enum paths without bindings (disjoint, unguarded): the order of such arms has no meaning"""
+    p = os.path.join(repo, f["file"])
+    lines = open(p, encoding="utf-8").read().split("\n")
+    l0, l1 = f["l"] - 1, f["el"]
+    n, i = 0, l0
+    while i + 1 < l1:
+        sa_, sb_ = STRARM.match(lines[i]), STRARM.match(lines[i + 1])
+        if sa_ and sb_ and sa_.group(1) == sb_.group(1) and not (set(re.findall(r'"([^"]*)"', sa_.group(2))) & set(re.findall(r'"([^"]*)"', sb_.group(2)))):
+            lines[i], lines[i + 1] = lines[i + 1], lines[i]
+            n += 1
+            i += 2
+            continue
+        a, b = ARM.match(lines[i]), ARM.match(lines[i + 1])
+        if a and b and a.group(1) == b.group(1) and " if " not in lines[i] and " if " not in lines[i + 1]:
+            va = set(re.findall(r"::([A-Za-z_]\w*)(?:\(|\s|$|\|)", a.group(2) + " "))
+            vb = set(re.findall(r"::([A-Za-z_]\w*)(?:\(|\s|$|\|)", b.group(2) + " "))
+            binds = re.search(r"\(\s*[a-z]", a.group(2) + b.group(2))
+            if va and vb and not (va & vb) and not binds:
+                lines[i], lines[i + 1] = lines[i + 1], lines[i]
+                n += 1
+                i += 2
+                continue
+        i += 1
+    if n:
+        open(p, "w", encoding="utf-8").write("\n".join(lines))
+    return n
+
+
+def mutate_letalias(repo, f):
+    """`let x = e;` -> `let x_v = e; let x = x_v;` for single-line immutable lets: an intermediate binding"""
+    p = os.path.join(repo, f["file"])
+    lines = open(p, encoding="utf-8").read().split("\n")
+    l0, l1 = f["l"] - 1, f["el"]
+    out, n = [], 0
+    for i, ln in enumerate(lines):
+        m = LET.match(ln) if l0 < i < l1 else None
+        if m and "?" not in m.group(4)[-1:] and not m.group(4).strip().startswith(("|", "move")) and n < 40:
+            ind, name, ty, e = m.group(1), m.group(2), m.group(3) or "", m.group(4)
+            out.append(f"{ind}let {name}_v{ty} = {e};")
+            out.append(f"{ind}let {name} = {name}_v;")
+            n += 1
+        else:
+            out.append(ln)
+    if n:
+        open(p, "w", encoding="utf-8").write("\n".join(out))
+    return n
+
+
 def mutate(repo, f):
+    if MODE == "swaparms":
+        return mutate_swaparms(repo, f)
+    if MODE == "letalias":
+        return mutate_letalias(repo, f)
     p = os.path.join(repo, f["file"])
     lines = open(p, encoding="utf-8").read().split("\n")
     l0, l1 = f["l"] - 1, f["el"]
@@ -183,8 +241,14 @@ def anchored_functions(syn):
     return out
 
 
+MODE = "rename"
+
+
 def main():
+    global MODE
     args = sys.argv[1:]
+    if "--mode" in args:
+        MODE = args[args.index("--mode") + 1]
     jobs = 1
     only = None
     keep = None
@@ -203,7 +267,7 @@ def main():
         fns = {k: v for k, v in fns.items() if only in k}
     if "--status" in args:
         want = args[args.index("--status") + 1]
-        prev = json.load(open(os.path.join(VERIF, ".cache", "alpha_sweep.json")))
+        prev = json.load(open(os.path.join(VERIF, ".cache", f"alpha_sweep{'' if MODE == 'rename' else '_' + MODE}.json")))
         fns = {k: v for k, v in fns.items() if prev.get(k, [None])[0] == want}
     print(f"{len(fns)} anchored functions")
     selftest.make_copy_head()
@@ -221,7 +285,7 @@ def main():
         try:
             n = mutate(repo, f)
             if n == 0:
-                results[path] = ("skip", "no local bindings")
+                results[path] = ("skip", "nothing to mutate")
                 return
             env = dict(os.environ, CARGO_NET_OFFLINE="true", CARGO_TARGET_DIR=os.path.join(VERIF, ".cache", f"alpha-target-w{i}"))
             r = subprocess.run(["cargo", "check", "--offline", "-q", "-p", "prqlc", "-p", "prqlc-parser", "--lib"], cwd=repo, env=env, stdout=subprocess.PIPE, stderr=subprocess.STDOUT, text=True)
@@ -235,12 +299,12 @@ def main():
                 if rc != 0:
                     bad.append(pid + ": " + "; ".join(l.strip()[:140] for l in out.splitlines() if l.strip().startswith("FAIL"))[:400])
             if bad:
-                results[path] = ("ALARM", f"{n} names renamed: {bad}")
+                results[path] = ("ALARM", f"{n} site(s) mutated ({MODE}): {bad}")
                 if keep:
                     d = subprocess.run(["diff", "-u", os.path.join(REPO, f["file"]), os.path.join(repo, f["file"])], stdout=subprocess.PIPE, text=True).stdout
                     open(os.path.join(keep, path.replace("::", "__").replace("/", "_").replace("<", "").replace(">", "").replace(" ", "_")[:120] + ".diff"), "w").write(d)
             else:
-                results[path] = ("ok", f"{n} names renamed, all checks silent")
+                results[path] = ("ok", f"{n} site(s) mutated ({MODE}), all checks silent")
         except Exception as e:
             results[path] = ("error", repr(e)[:200])
         finally:
@@ -254,7 +318,7 @@ def main():
     for v in results.values():
         c[v[0]] = c.get(v[0], 0) + 1
     print("alpha sweep:", c)
-    allp = os.path.join(VERIF, ".cache", "alpha_sweep.json")
+    allp = os.path.join(VERIF, ".cache", f"alpha_sweep{'' if MODE == 'rename' else '_' + MODE}.json")
     merged = json.load(open(allp)) if os.path.exists(allp) and ("--status" in args or only) else {}
     merged.update({k: list(v) for k, v in results.items()})
     json.dump(merged, open(allp, "w"), indent=1)
